@@ -139,6 +139,7 @@ struct Options {
 	bool verbose = false;
 	unsigned char fill = 0x00;
 	bool devImmediate = false;  // callback deviations also on immediate/reset ops
+	bool immReduced = false;	// ... but only the reduced menus, and only on change/restart/resume ops
 	std::string mode;			// property-specific sub-mode
 };
 
@@ -387,7 +388,7 @@ struct Engine {
 	}
 	static void guard(int id, Meth m, int layer, const void* self, GuardControl& c) {
 		Env& e = *c.context();
-		e.rec(id, m, (uint8_t) layer, c.stateId(), self, (int) c.pendingTransitions().count());
+		e.rec(id, m, (uint8_t) layer, c.stateId(), self, (int) c.pendingTransitions().count(), c._cancelled ? 1 : 0, (int) c.currentTransitions().count());
 		if (e.monitoring && G().inCallback) G().inCallback(CB_GUARD, id, m, &c);
 		if (layer) return;
 		Globals& g = G();
